@@ -38,5 +38,5 @@ for d,P,out in res:
     rows.append((os.path.basename(d), m.get('kind','?'), own[0], m.get('undecided',{}).get('reason','')[:90], {p:v for p,v in m['detected_by_all'].items() if p!=P}))
 json.dump(rows, open('/dev/shm/rows.json','w'))
 for r in rows:
-    print('| %s | %s | %s | %s |' % (r[0], r[1], ', '.join(r[2]) if r[2] else '**undecided (exit 2)**: '+r[3], ', '.join('%s: %s'%(p,','.join(v)) for p,v in sorted(r[4].items()))))
+    print('| %s | %s | %s | %s |' % (r[0], r[1], ', '.join(r[2]) if r[2] else ('**not detected by its own check**' if r[3].startswith('no rule fired') else '**undecided (exit 2)**: '+r[3]), ', '.join('%s: %s'%(p,','.join(v)) for p,v in sorted(r[4].items()))))
 print(sum(1 for r in rows if r[2]), 'of', len(rows))
